@@ -58,7 +58,7 @@ impl Kind {
                     if index < 0 {
                         let largest_known_index = array.known().keys().map(|i| i.to_usize()).max();
                         // The minimum size of the resulting array.
-                        let len_required = -index as usize;
+                        let len_required = index.unsigned_abs();
 
                         if array.unknown_kind().contains_any_defined() {
                             // The exact length is not known. We can't know for sure if the index
